@@ -28,26 +28,32 @@ CHECKS = {
             "TLC checks OnPolicy.tla (per-step collector over wrapped finite MDPs, tabular policy, post_collect GAE) against the "
             "declarative sentences of C04 on small configurations; every row of thousands of real rollouts (algo.reset + "
             "algo.iteration, 1..3 environments, discrete/masked/box actions, wrapper stacks) is validated clause by clause; the real "
-            "collector is also placed in every carried state the bounded model reaches and stepped once per key.",
-            "TableEnv / TableACPolicy stand-ins built on public extension points; production MLP policy covered by re-evaluation atoms.",
+            "collector is also placed in every carried state the bounded model reaches and stepped once per key; rollouts with the "
+            "production MLP policy and with a stateful, masked policy (law and value depend on the carried state) are re-evaluated row "
+            "by row (ratio inside PPO.ppo_loss itself = 1, stored reward = env reward + gamma V(successor) on truncation only).",
+            "TableEnv / TableACPolicy stand-ins built on public extension points; production and stateful policies covered by atoms.",
             "DESIGN.md section 4 C04"),
     "C06": ("TLA+ ReplayRing spec: TLC exhaustive over insertion histories + trace validation of real ReplayBuffer.add/sample",
             "TLC checks ReplayRing.tla (position % size ring, env-major joint sampling over stacked rings) against the declarative "
             "recency / intactness / stored-only sentences for all capacities and insertion histories within bounds; add and sample "
             "calls of the real ReplayBuffer (pytree observations, policy states, stacked rings with unequal fill levels, vmapped "
-            "adds) are validated slot by slot and row by row.",
+            "adds) are validated slot by slot and row by row; a ring of 2^23 slots with 2^20 rows written is sampled with batches that "
+            "exhaust the stored rows (stored-only at the other end of the scale); Apalache discharges the ring invariant for every "
+            "number of insertions.",
             "rows carry a unique tag in every leaf; sampling outcomes are validated by membership, never by value.",
             "DESIGN.md section 4 C06"),
     "C05": ("TLA+ OffPolicy collector spec: TLC exhaustive + trace validation of real DQN/SAC collection (C2S)",
             "TLC checks OffPolicy.tla (per-step collector, warm-up, per-stream replay ring) against the declarative sentences of C05 "
             "on small configurations; every stored row and every ring position of real DQN/SAC runs (reset + iterations, 1..3 "
-            "environments, wrapper stacks, box policies leaving the bounds) is validated clause by clause per environment stream.",
+            "environments, wrapper stacks, box policies leaving the bounds, one-sided declared action boxes) is validated clause by "
+            "clause per environment stream; warm-ups longer than the whole buffer are judged by their counters.",
             "training is stubbed through the public dqn_train/sac_train hooks; ring mechanics are C06.",
             "DESIGN.md section 4 C05"),
     "C19": ("TLA+ EpisodeStats/Eval specs: TLC exhaustive + trace validation of the real LoggingCallback, backend records and average_reward",
             "TLC proves the latch-based accumulator equal to the declarative per-episode sums/EMA for all reward/done histories "
             "within bounds (per environment); the real LoggingCallback's statistics are validated inside PPO/A2C/REINFORCE/DQN/SAC "
-            "collector traces against the environment's own rewards, the records reaching the backend are validated per iteration, "
+            "collector traces against the environment's own rewards, the records reaching BOTH backends of a two-backend callback are "
+            "validated per iteration, every behaviour of the bounded statistics model is executed on the real step-state update, "
             "and average_reward is validated on deterministic table MDPs against the first-done-or-cap episode return.",
             "exact fixed point up to 8 episode ends per trace; evaluation helper decided for deterministic tabular policies.",
             "DESIGN.md section 4 C19"),
@@ -75,14 +81,17 @@ CHECKS = {
     "C14": ("TLA+ Spaces term model: TLC checks its laws on the case universe; every real contains/sample/canonical/flatten/==/hash/Gym round-trip case validated by TLC",
             "Spaces.tla defines membership, flat size, flattening and equality of space terms from the property text; TLC checks "
             "the model's own laws on the generated universe (nested Dict/Tuple, infinite bounds, boundary / malformed candidates) "
-            "and judges every answer of the real space classes case by case.",
+            "and judges every answer of the real space classes case by case (dictionary values as mappings: members re-keyed in "
+            "another order must flatten to the same vector, in the space's key order).",
             "probes restricted to inputs whose verdict the property text fixes; continuous samples are abstracted soundly for membership.",
             "DESIGN.md section 4 C14"),
     "C15": ("TLA+ DiscreteLaws spec (exact rationals): TLC exhaustive + every real discrete-law case judged by TLC; continuous laws as atoms",
             "DiscreteLaws.tla defines categorical / Bernoulli / product laws and masking in exact rational arithmetic; TLC checks "
             "total mass, proportional renormalisation and mode on all small weight vectors and masks, and judges the probabilities, "
             "modes, samples and product structure of the real Categorical / Bernoulli / MultiCategorical classes case by case. "
-            "Continuous laws (Normal, diagonal normal, squashed variants) contribute harness-evaluated identities only.",
+            "Continuous laws (Normal, diagonal normal, squashed variants) contribute harness-evaluated identities only; parameters with a "
+            "leading batch dimension must act row-wise in every method; masked laws must not depend on forbidden preferences "
+            "(forbidden logits 120 nats above the allowed ones).",
             "Statistical clauses (total mass of densities by quadrature incl. the squashing Jacobian, goodness of fit of samples incl. "
             "joint frequencies of product laws, entropy = -E[log p]) are harness-evaluated atoms with fixed keys and 6-sigma bounds: "
             "decided up to those tolerances on the sampled parameterisations (no state-machine content).",
@@ -91,21 +100,25 @@ CHECKS = {
             "TLC checks on all weight vectors (n <= 4) and all non-empty masks that masking zeroes masked actions, renormalises "
             "proportionally and keeps the mode allowed; real Categorical/Bernoulli/MultiCategorical.mask and the production MLP "
             "actor-critic (discrete, multi-discrete, multi-binary) and Q policies (epsilon 0, 0.3, 1; with and without key) are "
-            "exercised under every non-empty mask and judged against it.",
+            "exercised under every non-empty mask - also with the forbidden actions preferred by 120 nats / 1e4 value units before "
+            "masking - and judged against it; the SAC policy's key-less action is the mode of its sampled law within the bounds.",
             "'departs from greedy with probability at most epsilon' for 0 < epsilon < 1 is statistical: only support and the extremes are decided.",
             "DESIGN.md section 4 C16"),
     "C07": ("TLA+ Losses spec (exact integer arithmetic): TLC exhaustive on flag/table cases + real dqn_loss/sac_train cases judged by TLC",
             "Losses.tla states the TD targets declaratively (r + gamma (1 - terminated) V') and in implementation shape; TLC proves "
             "them equal on all flag combinations and checks the Double-DQN structure; the real DQN.dqn_loss / dqn_loss_grad (loss and "
             "the whole gradient table = semi-gradient of the online network only) and the real SAC.sac_train (q_loss value, actor "
-            "gating, critic independence, untouched targets) are evaluated on tabular / constant networks and judged case by case.",
+            "gating, critic independence, untouched targets; temperature 1 and 2) are evaluated on tabular / constant networks and "
+            "judged case by case; a DQN object configured with a non-default discount runs its real dqn_train against that loss.",
             "tabular / constant networks; exact on dyadic inputs (tolerance 2e-5); arbitrary real parameters not decided.",
             "DESIGN.md section 4 C07"),
     "C08": ("TLA+ Losses spec (exact integer arithmetic): TLC exhaustive on ratio/advantage cases + real ppo/a2c/reinforce losses judged by TLC",
             "Losses.tla states the published objectives (PPO clipped surrogate with PPO2 value clipping, A2C, REINFORCE); TLC checks "
             "the zero-gradient-outside-clip and on-policy identities exhaustively; the real static loss functions and their gradients "
             "are evaluated on tabular policies for every (ratio, advantage) combination, flags and coefficients and judged "
-            "component by component; PPO.train_batch decides the optimiser / global-norm-clipping clause.",
+            "component by component; PPO.train_batch decides the optimiser / global-norm-clipping clause; learners CONFIGURED with "
+            "non-default coefficients run their real train against the static loss with those settings; buffers filled by the real "
+            "collectors with a stateful masked policy give the on-policy identities end to end (approx KL 0, ratio 1).",
             "ratios realised through exp(ln r): tolerance 2e-5; off-policy approx_kl value and irrational std not decided.",
             "DESIGN.md section 4 C08"),
     "C18": ("TLA+ Checkpoint spec: TLC exhaustive over save/load histories + TLC-generated behaviours replayed on the real file system (S2C)",
@@ -127,8 +140,9 @@ CHECKS = {
     "C11": ("TLA+ Purity spec (lock-step self-composition, leaking mutant as vacuity guard) + families of real learn() runs validated by TLC",
             "TLC checks that two lock-step copies of the training loop with arbitrary observer states never diverge (and that a "
             "training step reading observer state is caught); families of real learn() runs (algorithms x observer sets x keys x "
-            "repetitions) are validated: same inputs bit-identical, observers do not change the result (1e-5), different keys differ, "
-            "the policy passed in is untouched.",
+            "repetitions) are validated: same inputs bit-identical (also across fresh interpreter processes), observers do not change "
+            "the result (1e-5), different keys differ (integer seeds and raw keys differing in one 32-bit word), the policy passed "
+            "in is untouched.",
             "thin, said so: the substance is the recorded digests; single CPU device; runs with different observer sets are different "
             "XLA programs and are compared with tolerance.",
             "DESIGN.md section 4 C11"),
@@ -147,13 +161,16 @@ CHECKS = {
             "of handed-out states and reward book-keeping are atoms.",
             "Vector fields, time steps, CartPole/Euler trajectories and, for all eleven MuJoCo classes, observation / reward / same-named "
             "reward components / termination from the same physical state and action are compared numerically with the installed "
-            "Gymnasium (v5) environments by the harness (tolerances measured, DESIGN.md 9.8) and only collected by the trace "
+            "Gymnasium (v5) environments by the harness - with default, with every boolean observation option and with non-default "
+            "numeric parameters (weights, asymmetric healthy ranges, two-sided cost ranges; classic control: masses, lengths, forces, "
+            "thresholds) set identically on both sides (tolerances measured, DESIGN.md 9.8) - and only collected by the trace "
             "specification: that part has no state-machine content.",
             "DESIGN.md section 4 C17, section 9.8"),
     "C20": ("TLA+ Gait spec (integer tick model, exact rational foot height): TLC exhaustive + real gait functions on tick grids validated; G1 episodes as atoms (thorough)",
             "Gait.tla proves on tick grids that both phases stay in range, half a cycle apart and advance by the increment, and that "
             "the Bezier foot height stays within [0, swing], vanishes at -pi and peaks at 0; the real advance_gait_phase / "
-            "desired_foot_height are validated step by step along long histories for every increment; real G1 episodes (randomisation "
+            "desired_foot_height are validated step by step along long histories for every increment from 0 to three cycles per control "
+            "step; Apalache discharges the phase invariant for every cycle length and increment; real G1 episodes (randomisation "
             "frame and ranges, kinematic consistency, gait coherence along env.step) are atoms in the thorough tier.",
             "float drift over arbitrarily long histories is not decided; G1 environments only in the thorough tier (about 100 s compile per call).",
             "DESIGN.md section 4 C20"),
